@@ -29,6 +29,29 @@ package commands
 //@   modifies all
 //@   ensures forall_int(i, result[i], 0 <= i && i < len(result) ==> isoid(result[i]))
 
+// C13, pointer half: the per-file callback of the pointer scan records exactly
+// the files that are non-canonical pointers or that should have been pointers
+// and are not; a canonical pointer adds nothing; any other scan error aborts.
+//@ func doFsckPointers$1
+//@   props C13
+//@   ensures p != nil && p.Canonical ==> corruptPointers == old(corruptPointers)
+//@   ensures p != nil && !p.Canonical ==> len(corruptPointers) == old(len(corruptPointers)) + 1 && corruptPointers[old(len(corruptPointers))].kind == "nonCanonicalPointer" && corruptPointers[old(len(corruptPointers))].lfsOid == p.Oid && corruptPointers[old(len(corruptPointers))].blobOid == p.Sha1
+//@   ensures p == nil ==> err_pointerscan(err)
+//@   ensures p == nil && dyntype(err, "github.com/git-lfs/git-lfs/v3/errors.PointerScanError") ==> len(corruptPointers) == old(len(corruptPointers)) + 1 && corruptPointers[old(len(corruptPointers))].kind == "unexpectedGitObject"
+//@   ensures len(corruptPointers) >= old(len(corruptPointers)) && forall_int(k, corruptPointers[k], 0 <= k && k < old(len(corruptPointers)) ==> corruptPointers[k] == old(corruptPointers[k]))
+//@ func (corruptPointer).String
+//@   assumed
+//@   props C13
+//@   noeffect
+//@ func (github.com/git-lfs/git-lfs/v3/errors.PointerScanError).OID
+//@   assumed
+//@   props C13
+//@   noeffect
+//@ func (github.com/git-lfs/git-lfs/v3/errors.PointerScanError).Path
+//@   assumed
+//@   props C13
+//@   noeffect
+
 // Exit status and repair: success is reported only when nothing was found;
 // corrupt objects are moved (never removed), only without --dry-run, from
 // their object path to a path outside the object store.
